@@ -2064,7 +2064,7 @@ int yr_re_exec(
     input += input_incr;
     bytes_matched += character_size;
 
-    if (flags & RE_FLAGS_SCAN && bytes_matched < max_bytes_matched)
+    if (flags & RE_FLAGS_SCAN && bytes_matched <= max_bytes_matched)
     {
       FAIL_ON_ERROR_WITH_CLEANUP(
           _yr_re_fiber_create(&context->re_fiber_pool, &fiber),
